@@ -105,19 +105,19 @@ macro_rules! conv_set {
         });
     };
 }
-//@ harness name=aes128_arm_from_enc_val prop=C12 tier=quick bits=256 stub=1 variants=aes:armv8 est=50 desc="Aes128::from(Aes128Enc::new(k)) (by value) encrypts and decrypts as FIPS-197 for all keys and blocks (inverse keys derived from the encryption keys by AESIMC), ARMv8 arm"
-//@ harness name=aes128_arm_from_enc_ref prop=C12 tier=quick bits=256 stub=1 variants=aes:armv8 est=60 desc="Aes128::from(&enc) encrypts/decrypts as FIPS-197 and leaves enc working; all keys and blocks, ARMv8 arm"
-//@ harness name=aes128_arm_dec_from_enc prop=C12 tier=quick bits=256 stub=1 variants=aes:armv8 est=85 desc="Aes128Dec::from(&enc) and Aes128Dec::from(enc) decrypt as FIPS-197; all keys and blocks, ARMv8 arm"
+//@ harness name=aes128_arm_from_enc_val prop=C12 tier=quick bits=256 stub=1 variants=aes:armv8 est=40 desc="Aes128::from(Aes128Enc::new(k)) (by value) encrypts and decrypts as FIPS-197 for all keys and blocks (inverse keys derived from the encryption keys by AESIMC), ARMv8 arm"
+//@ harness name=aes128_arm_from_enc_ref prop=C12 tier=quick bits=256 stub=1 variants=aes:armv8 est=50 desc="Aes128::from(&enc) encrypts/decrypts as FIPS-197 and leaves enc working; all keys and blocks, ARMv8 arm"
+//@ harness name=aes128_arm_dec_from_enc prop=C12 tier=quick bits=256 stub=1 variants=aes:armv8 est=95 desc="Aes128Dec::from(&enc) and Aes128Dec::from(enc) decrypt as FIPS-197; all keys and blocks, ARMv8 arm"
 //@ harness name=aes128_arm_clones prop=C12 tier=thorough bits=256 stub=1 est=310 variants=aes:armv8 desc="clone of a converted Aes128, clone of Aes128Enc, clone of Aes128Dec compute FIPS-197 (hand-written Clone over the union arm selected by the token; derived Clone of the armv8 key arrays); all keys and blocks"
 conv_set!(aes128_arm_from_enc_val, aes128_arm_from_enc_ref, aes128_arm_dec_from_enc, aes128_arm_clones, crate::Aes128, crate::Aes128Enc, crate::Aes128Dec, 16);
-//@ harness name=aes192_arm_from_enc_val prop=C12 tier=quick bits=320 stub=1 variants=aes:armv8 est=65 desc="Aes192::from(Aes192Enc) conforms, all keys and blocks, ARMv8 arm"
-//@ harness name=aes192_arm_from_enc_ref prop=C12 tier=quick bits=320 stub=1 variants=aes:armv8 est=70 desc="Aes192::from(&enc) conforms, all keys and blocks, ARMv8 arm"
-//@ harness name=aes192_arm_dec_from_enc prop=C12 tier=quick bits=320 stub=1 variants=aes:armv8 est=125 desc="Aes192Dec::from(enc / &enc) conforms, ARMv8 arm"
+//@ harness name=aes192_arm_from_enc_val prop=C12 tier=quick bits=320 stub=1 variants=aes:armv8 est=50 desc="Aes192::from(Aes192Enc) conforms, all keys and blocks, ARMv8 arm"
+//@ harness name=aes192_arm_from_enc_ref prop=C12 tier=quick bits=320 stub=1 variants=aes:armv8 est=75 desc="Aes192::from(&enc) conforms, all keys and blocks, ARMv8 arm"
+//@ harness name=aes192_arm_dec_from_enc prop=C12 tier=quick bits=320 stub=1 variants=aes:armv8 est=120 desc="Aes192Dec::from(enc / &enc) conforms, ARMv8 arm"
 //@ harness name=aes192_arm_clones prop=C12 tier=thorough bits=320 stub=1 est=460 variants=aes:armv8 desc="clones of Aes192 / Aes192Enc / Aes192Dec conform, ARMv8 arm"
 conv_set!(aes192_arm_from_enc_val, aes192_arm_from_enc_ref, aes192_arm_dec_from_enc, aes192_arm_clones, crate::Aes192, crate::Aes192Enc, crate::Aes192Dec, 24);
-//@ harness name=aes256_arm_from_enc_val prop=C12 tier=quick bits=384 stub=1 variants=aes:armv8 est=190 desc="Aes256::from(Aes256Enc) conforms, all keys and blocks, ARMv8 arm"
+//@ harness name=aes256_arm_from_enc_val prop=C12 tier=quick bits=384 stub=1 variants=aes:armv8 est=175 desc="Aes256::from(Aes256Enc) conforms, all keys and blocks, ARMv8 arm"
 //@ harness name=aes256_arm_from_enc_ref prop=C12 tier=thorough bits=384 stub=1 est=310 variants=aes:armv8 desc="Aes256::from(&enc) conforms, all keys and blocks, ARMv8 arm"
-//@ harness name=aes256_arm_dec_from_enc prop=C12 tier=quick bits=384 stub=1 variants=aes:armv8 est=160 need=4 desc="Aes256Dec::from(enc / &enc) conforms, ARMv8 arm"
+//@ harness name=aes256_arm_dec_from_enc prop=C12 tier=quick bits=384 stub=1 variants=aes:armv8 est=175 need=4 desc="Aes256Dec::from(enc / &enc) conforms, ARMv8 arm"
 //@ harness name=aes256_arm_clones prop=C12 tier=thorough bits=384 stub=1 est=670 variants=aes:armv8 desc="clones of Aes256 / Aes256Enc / Aes256Dec conform, ARMv8 arm"
 conv_set!(aes256_arm_from_enc_val, aes256_arm_from_enc_ref, aes256_arm_dec_from_enc, aes256_arm_clones, crate::Aes256, crate::Aes256Enc, crate::Aes256Dec, 32);
 
@@ -261,11 +261,11 @@ arm_batch!(b2b, aes128_arm_batch22_enc_b2b, crate::Aes128, 16, 21, 22, false);
 arm_batch!(ipc, aes128_arm_batch22_dec_ip, crate::Aes128, 16, 21, 22, true);
 //@ harness name=aes128_arm_batch22_dec_b2b prop=C04,C20 tier=thorough bits=2944 stub=1 est=360 variants=aes:armv8 desc="Aes128 (ARMv8 arm) decrypt_blocks_b2b on 22 blocks equals 22 single-block calls; input unchanged"
 arm_batch!(b2b, aes128_arm_batch22_dec_b2b, crate::Aes128, 16, 21, 22, true);
-//@ harness name=aes128_arm_batch3_enc_ip prop=C04,C20 tier=quick bits=520 stub=1 variants=aes:armv8 est=85 desc="Aes128 (ARMv8 arm): 3 blocks (fewer than the parallel width: tail path only) at a symbolic buffer offset 0..15: encrypt_blocks in place equals three single-block calls; guards unchanged; all keys and contents"
+//@ harness name=aes128_arm_batch3_enc_ip prop=C04,C20 tier=quick bits=520 stub=1 variants=aes:armv8 est=95 desc="Aes128 (ARMv8 arm): 3 blocks (fewer than the parallel width: tail path only) at a symbolic buffer offset 0..15: encrypt_blocks in place equals three single-block calls; guards unchanged; all keys and contents"
 arm_batch!(ip, aes128_arm_batch3_enc_ip, crate::Aes128, 16, 21, 3, false, off_sym);
 //@ harness name=aes128_arm_batch3_enc_b2b prop=C04,C20 tier=quick bits=512 stub=1 variants=aes:armv8 est=45 desc="Aes128 (ARMv8 arm): encrypt_blocks_b2b on 3 blocks equals three single-block calls; input unchanged"
 arm_batch!(b2b, aes128_arm_batch3_enc_b2b, crate::Aes128, 16, 21, 3, false);
-//@ harness name=aes128_arm_batch3_dec_ip prop=C04,C20 tier=quick bits=520 stub=1 variants=aes:armv8 est=80 desc="as aes128_arm_batch3_enc_ip, decrypt"
+//@ harness name=aes128_arm_batch3_dec_ip prop=C04,C20 tier=quick bits=520 stub=1 variants=aes:armv8 est=95 desc="as aes128_arm_batch3_enc_ip, decrypt"
 arm_batch!(ip, aes128_arm_batch3_dec_ip, crate::Aes128, 16, 21, 3, true, off_sym);
 //@ harness name=aes128_arm_batch3_dec_b2b prop=C04,C20 tier=quick bits=512 stub=1 variants=aes:armv8 est=45 desc="as aes128_arm_batch3_enc_b2b, decrypt"
 arm_batch!(b2b, aes128_arm_batch3_dec_b2b, crate::Aes128, 16, 21, 3, true);
@@ -302,7 +302,7 @@ macro_rules! hz_harness {
     };
 }
 
-//@ harness name=hz_arm_cipher_round prop=C17,C03 tier=quick bits=257 stub=1 variants=aes:armv8+hazmat est=55 desc="hazmat::cipher_round(block, key) == MixColumns(ShiftRows(SubBytes(block))) ^ key for all 2^128 blocks x 2^128 keys, on either dispatch arm of the aarch64 build (CPU answer symbolic: armv8/hazmat.rs = AESE with zero key, AESMC, EOR under the concrete instruction model; or fixslice64 software)"
+//@ harness name=hz_arm_cipher_round prop=C17,C03 tier=quick bits=257 stub=1 variants=aes:armv8+hazmat est=60 desc="hazmat::cipher_round(block, key) == MixColumns(ShiftRows(SubBytes(block))) ^ key for all 2^128 blocks x 2^128 keys, on either dispatch arm of the aarch64 build (CPU answer symbolic: armv8/hazmat.rs = AESE with zero key, AESMC, EOR under the concrete instruction model; or fixslice64 software)"
 hz_harness!(hz_arm_cipher_round, 33, 40, |inp| {
     va::set_concrete(true);
     ni_model::set_cpu(inp[32] & 1 == 1);
@@ -313,7 +313,7 @@ hz_harness!(hz_arm_cipher_round, 33, 40, |inp| {
     Some(b.0 == ra::xor(&ra::round_core(&blk), &key))
 });
 
-//@ harness name=hz_arm_equiv_inv_cipher_round prop=C17,C03 tier=quick bits=257 stub=1 variants=aes:armv8+hazmat est=175 desc="hazmat::equiv_inv_cipher_round(block, key) == InvMixColumns(InvShiftRows(InvSubBytes(block))) ^ key, all blocks and keys, either dispatch arm of the aarch64 build (armv8: AESD with zero key, AESIMC, EOR)"
+//@ harness name=hz_arm_equiv_inv_cipher_round prop=C17,C03 tier=quick bits=257 stub=1 variants=aes:armv8+hazmat est=210 desc="hazmat::equiv_inv_cipher_round(block, key) == InvMixColumns(InvShiftRows(InvSubBytes(block))) ^ key, all blocks and keys, either dispatch arm of the aarch64 build (armv8: AESD with zero key, AESIMC, EOR)"
 hz_harness!(hz_arm_equiv_inv_cipher_round, 33, 40, |inp| {
     va::set_concrete(true);
     ni_model::set_cpu(inp[32] & 1 == 1);
@@ -335,7 +335,7 @@ hz_harness!(hz_arm_mix_columns, 17, 40, |inp| {
     hazmat::mix_columns(&mut b);
     Some(b.0 == ra::mix_columns(&blk))
 });
-//@ harness name=hz_arm_inv_mix_columns prop=C17,C03 tier=quick bits=129 stub=1 variants=aes:armv8+hazmat est=60 desc="hazmat::inv_mix_columns == FIPS-197 InvMixColumns for all 2^128 blocks, on either dispatch arm of the aarch64 build (armv8 = AESIMC)"
+//@ harness name=hz_arm_inv_mix_columns prop=C17,C03 tier=quick bits=129 stub=1 variants=aes:armv8+hazmat est=65 desc="hazmat::inv_mix_columns == FIPS-197 InvMixColumns for all 2^128 blocks, on either dispatch arm of the aarch64 build (armv8 = AESIMC)"
 hz_harness!(hz_arm_inv_mix_columns, 17, 40, |inp| {
     va::set_concrete(true);
     ni_model::set_cpu(inp[16] & 1 == 1);
@@ -345,7 +345,7 @@ hz_harness!(hz_arm_inv_mix_columns, 17, 40, |inp| {
     Some(c.0 == ra::inv_mix_columns(&blk))
 });
 
-//@ harness name=hz_arm_cipher_round_par prop=C17,C04 tier=quick bits=2048 stub=1 variants=aes:armv8+hazmat est=205 need=10 desc="hazmat::cipher_round_par on 8 arbitrary blocks with 8 arbitrary round keys == eight independent cipher_round calls with the respective keys (armv8 arm)"
+//@ harness name=hz_arm_cipher_round_par prop=C17,C04 tier=quick bits=2048 stub=1 variants=aes:armv8+hazmat est=270 need=10 desc="hazmat::cipher_round_par on 8 arbitrary blocks with 8 arbitrary round keys == eight independent cipher_round calls with the respective keys (armv8 arm)"
 hz_harness!(hz_arm_cipher_round_par, 256, 40, |inp| {
     va::set_concrete(true);
     ni_model::set_cpu(true);
